@@ -118,6 +118,7 @@ type C10Result struct {
 	BarrierMet     int    `json:"barrier_met,omitempty"`
 	BarrierTimeout int    `json:"barrier_timeouts,omitempty"`
 	ForcedTrials   int    `json:"forced_trials,omitempty"`
+	BurstTrials    int    `json:"burst_trials,omitempty"`
 	OrderSig       string `json:"order_sig,omitempty"`
 	QuiescentRegs  int    `json:"quiescent_registers,omitempty"`
 	DurationMs     int64  `json:"duration_ms"`
@@ -1217,6 +1218,7 @@ func c10RunConc(c C10Case) C10Result {
 	type plan struct {
 		pre    []*c10CReq // sequential session creation
 		forced [][3]*c10CReq
+		bursts [][]*c10CReq // K first uses of one new session ID, last element = verification request
 		perG   [][]*c10CReq
 		final  []*c10CReq
 	}
@@ -1245,6 +1247,24 @@ func c10RunConc(c C10Case) C10Result {
 		b := newReq(G+2, k, paths[rng.Intn(len(paths))], []c10Write{{"fb", val(k, 91)}})
 		v := newReq(G, k, "/", nil)
 		pl.forced = append(pl.forced, [3]*c10CReq{a, b, v})
+	}
+	// burst trials: K requests bearing one never-seen session ID, aligned at the lookup hook point
+	nBurst, K := 0, 3*G
+	if K > 40 {
+		K = 40
+	}
+	if c.Forced && !c.Evict {
+		nBurst = 12
+	}
+	for t := 0; t < nBurst; t++ {
+		k := len(rd.sessIDs)
+		rd.sessIDs = append(rd.sessIDs, fmt.Sprintf("restart-%s-b%d", short, t))
+		var b []*c10CReq
+		for i := 0; i < K; i++ {
+			b = append(b, newReq(G+3+i, k, paths[rng.Intn(len(paths))], []c10Write{{fmt.Sprintf("b%d", i), val(k, 100+i)}}))
+		}
+		b = append(b, newReq(G, k, "/", nil))
+		pl.bursts = append(pl.bursts, b)
 	}
 	// free-running phase
 	ops := c.Steps
@@ -1343,6 +1363,47 @@ func c10RunConc(c C10Case) C10Result {
 		bar.mu.Lock()
 		res.BarrierMet, res.BarrierTimeout = bar.met, bar.timeouts
 		bar.mu.Unlock()
+		for _, b := range pl.bursts {
+			// the first K arrivals at the lookup point are the K requests' first lookups: hold them
+			// until all are there (2 s bound), so that they look the new ID up at the same time
+			var arrived int32
+			release := make(chan struct{})
+			var timeouts int32
+			n := len(b) - 1
+			verifhook.Set(func(name string) {
+				if name != "sessions.jar.lookup" {
+					return
+				}
+				a := int(atomic.AddInt32(&arrived, 1))
+				if a > n {
+					return
+				}
+				if a == n {
+					close(release)
+					return
+				}
+				select {
+				case <-release:
+				case <-time.After(2 * time.Second):
+					atomic.AddInt32(&timeouts, 1)
+				}
+			})
+			var wg sync.WaitGroup
+			for _, q := range b[:n] {
+				q := q
+				wg.Add(1)
+				go func() { defer wg.Done(); rd.do(q) }()
+			}
+			wg.Wait()
+			verifhook.Set(nil)
+			rd.do(b[n])
+			res.BurstTrials++
+			if atomic.LoadInt32(&timeouts) == 0 && int(atomic.LoadInt32(&arrived)) >= n {
+				res.BarrierMet++
+			} else {
+				res.BarrierTimeout++
+			}
+		}
 	}
 	// free-running: hook points yield now and then to diversify schedules
 	verifhook.Set(func(string) {
@@ -1390,13 +1451,13 @@ func c10RunConc(c C10Case) C10Result {
 	res.Requests = len(rd.reqs)
 
 	// --- oracles
-	rd.judge(pl.forced, pl.final)
+	rd.judge(pl.forced, pl.bursts, pl.final)
 	return res
 }
 
 var c10ConcTagRe = regexp.MustCompile(`^s(\d+)\.w\d+\.n\d+$`)
 
-func (rd *c10Round) judge(forced [][3]*c10CReq, final []*c10CReq) {
+func (rd *c10Round) judge(forced [][3]*c10CReq, bursts [][]*c10CReq, final []*c10CReq) {
 	c, res := rd.c, rd.res
 	// per request: crash, leak, own cookie, safety (i); collect per-register observations
 	type regKey struct {
@@ -1515,6 +1576,29 @@ func (rd *c10Round) judge(forced [][3]*c10CReq, final []*c10CReq) {
 		got := sawMap[v.id]
 		if got["fa"] != a.writes[0].Val || got["fb"] != b.writes[0].Val {
 			rd.violate("first-use-jar-lost", fmt.Sprintf("two overlapping first requests bearing the new session ID %s set fa=%s and fb=%s; a later request of that session reached the backend with %q", rd.sessIDs[a.sess], a.writes[0].Val, b.writes[0].Val, v.saw), nil)
+		}
+	}
+
+	for _, b := range bursts {
+		n := len(b) - 1
+		v := b[n]
+		got := sawMap[v.id]
+		if got == nil {
+			continue
+		}
+		var lost []string
+		complete := true
+		for _, q := range b[:n] {
+			if !q.returned {
+				complete = false
+				break
+			}
+			if got[q.writes[0].Name] != q.writes[0].Val {
+				lost = append(lost, q.writes[0].Name+"="+q.writes[0].Val)
+			}
+		}
+		if complete && len(lost) > 0 {
+			rd.violate("first-use-jar-lost", fmt.Sprintf("%d overlapping first requests bearing the new session ID %s each set one cookie; a later request of that session reached the backend without %d of them (%s ...): Cookie header %q", n, rd.sessIDs[v.sess], len(lost), lost[0], v.saw), nil)
 		}
 	}
 
